@@ -1288,12 +1288,12 @@ def main(chk):
         "interrogate prints warnings only at verbosity >= 2 (-v); the missing-file warning is checked for parse_file and "
         "for interrogate runs with -v",
     ]
-    ntrees = chk.pick(160, 2000)
+    ntrees = chk.pick(640, 12000)
     cases = []
     for i in range(ntrees):
         sub = "%d.%d" % (chk.seed, i)
         cases.append(treegen.gen_case(sub))
-    for i in range(chk.pick(30, 300)):
+    for i in range(chk.pick(120, 1500)):
         cases.append(treegen.gen_case("o%d.%d" % (chk.seed, i), focus="order"))
     # Filename harness: exhaustive up to 4 (quick) / 6 (thorough) components, plus a seeded sample of longer ones
     maxlen = chk.pick(4, 6)
@@ -1308,7 +1308,7 @@ def main(chk):
     for k in range(chk.pick(1, 4)):
         cases.append(dict(kind="fname", id="fn-symlink-%d" % k, variant="symlink",
                           paths=dict(mode="exhaustive", maxlen=chk.pick(4, 5), chunk=k, nchunks=chk.pick(1, 4))))
-    chk.extra["trees"] = ntrees + chk.pick(30, 300)
+    chk.extra["trees"] = ntrees + chk.pick(120, 1500)
     chk.extra["path_string_bound"] = maxlen
     chk.exhaustive = False
     chk.min_conclusive = 10
